@@ -11,6 +11,11 @@ T  : the driver `versionupgrade` checks each chain with the REAL VerifyYouVersio
      last header through the real verifier, runs the real ProcessYouVersionState under every table, and extends random
      walks over accepted headers; VersionUpgrade_Mon (the verdict) judges every accepted pair, every builder output and
      every chain; VersionUpgrade_Trace (conformance to Verify/BuilderNext) is the drift measure.
+Chain level on a REAL core.BlockChain (spec/VersionChain.tla, driver `versionchain`): TLC generates schedules over {import a
+     branch segment (reorganisations included), SetHead, query VersionForRound(r) for r in 8..15}; the monitor
+     VersionChain_Mon checks ActiveVersionIsCanonical (every answer = CurrVersion of the observed canonical header at
+     max(0, r - 8)) and the C12 statement over the observed canonical headers (Canon<Clause>); VersionChain_Trace is the drift
+     measure.
 """
 import json
 import os
@@ -200,6 +205,159 @@ def selftest(ctx, trace):
         raise vlib.Undecided("trace-checker self-test failed: corrupted event not rejected")
 
 
+# ---------------------------------------------------------------------------- chain level (real core.BlockChain)
+VC_CFG = """SPECIFICATION Spec
+CONSTANTS
+  MaxActs = %(acts)d
+  FixParent = %(fix)s
+  AutoQuery = %(auto)s
+  GenMode = "%(gen)s"
+%(invs)s
+VIEW %(view)s
+CHECK_DEADLOCK FALSE
+"""
+
+
+def chain_witnesses():
+    behs = []
+    wdir = os.path.join(vlib.VERIF, "findings")
+    for fn in sorted(os.listdir(wdir)) if os.path.isdir(wdir) else []:
+        if fn.startswith("C12v_") and fn.endswith(".json"):
+            behs += json.load(open(os.path.join(wdir, fn)))["behaviours"]
+    return behs
+
+
+def sched(h):
+    """TLC history record -> driver action"""
+    out = []
+    for a in h:
+        if a["a"] == "import":
+            out.append({"a": "import", "seg": list(a["seg"])})
+        elif a["a"] == "sethead":
+            out.append({"a": "sethead", "n": a["n"]})
+        else:
+            out.append({"a": "query"})
+    return out
+
+
+def chain_generate(ctx):
+    quick = ctx.quick
+    files = {"known_c12.json": json.dumps(known_for_model(ctx))}
+    behs = chain_witnesses()
+    nw = len(behs)
+    # M: design level, schedules with explicit queries
+    cfg = VC_CFG % dict(acts=4 if quick else 6, fix="FALSE", auto="FALSE", gen="none",
+                        invs="INVARIANT ActiveVersionIsCanonical CanonChainSafe", view="View")
+    m = ctx.tlc_must("VersionChain", cfg, name="M_chain", files=files, timeout=1500)
+    for v in m.printed:
+        if isinstance(v, dict) and v.get("kind") == "CEX":
+            behs.append(sched(v["h"]) + [{"a": "query"}])
+            ctx.note("chain level: design counterexample for %s %s exported for replay" % (v.get("clause"), v.get("disc")))
+    # the proposed repair (first block checked against its real parent) has no deviation
+    cfg = VC_CFG % dict(acts=4 if quick else 6, fix="TRUE", auto="FALSE", gen="none",
+                        invs="INVARIANT ActiveVersionIsCanonical CanonChainSafe", view="View")
+    if not quick:
+        f = ctx.tlc_must("VersionChain", cfg, name="M_chain_repaired", timeout=1500,
+                         files={"known_c12.json": json.dumps([{"clause": "-none-", "disc": ["-"]}])})
+        ctx.cov["chain_repaired_design_holds"] = bool(f.ok)
+    # G1: one witness schedule per distinct reachable transition (the driver queries after every action)
+    cfg = VC_CFG % dict(acts=6 if quick else 8, fix="FALSE", auto="TRUE", gen="transitions",
+                        invs="INVARIANT GenTransitions", view="ViewG")
+    g1 = ctx.tlc_must("VersionChain", cfg, name="G1_chain_transitions", files=files, timeout=1500, workers=1)
+    tr = [sched(v["h"]) for v in g1.printed if isinstance(v, dict) and v.get("kind") == "B"]
+    # G2: random schedules with TLC-scheduled queries
+    cfg = (VC_CFG % dict(acts=8, fix="FALSE", auto="FALSE", gen="leaf", invs="CONSTRAINT Leaf", view="View")).replace("VIEW View\n", "")
+    g2 = ctx.tlc_must("VersionChain", cfg, name="G2_chain_simulate", files=files, timeout=1500,
+                      simulate={"num": 100 if quick else 1500}, depth=9)
+    sim = [json.loads(x) for x in sorted({json.dumps(sched(v["h"])) for v in g2.printed if isinstance(v, dict) and v.get("kind") == "B"})]
+    random.Random(ctx.seed).shuffle(sim)
+    sim = sim[:(100 if quick else 1500)]
+    ctx.note("chain level: %d witnesses/cex, %d transition schedules, %d simulated schedules" % (len(behs), len(tr), len(sim)))
+    return behs + tr + sim, m.violated
+
+
+def chain_judge(ctx, behs, conformance=True):
+    bpath = ctx.path("chain_behaviours.ndjson")
+    vlib.write_ndjson(bpath, behs)
+    trace = ctx.path("chain_trace.ndjson")
+    info = ctx.drive("versionchain", trace, behaviours=bpath, opts={"autoquery": 1})
+    ctx.cov["traces_validated_against_impl"] += len(behs)
+    ctx.cov["chain_schedules"] = ctx.cov.get("chain_schedules", 0) + len(behs)
+    n = 0
+    with open(trace) as fh:
+        for line in fh:
+            if '"ev":"query"' in line:
+                n += 8
+    ctx.cov["evaluations"] += n
+    ctx.cov["distinct_nontrivial"] += len({json.dumps(b, sort_keys=True) for b in behs if sum(1 for a in b if a["a"] != "query") >= 2})
+    for a in info["aborts"]:
+        ctx.note("chain level: driver aborted in schedule %s: %s" % (a["b"], a["msg"]))
+    result, _ = vlib.monitor(ctx, "VersionChain_Mon", "VersionChain_Mon.cfg", trace, behaviours=bpath, name="VersionChain_Mon",
+                             replay_meta={"driver": "versionchain"}, timeout=1500)
+    if conformance:
+        # the code may follow the design as coded (first block checked against the canonical block) or the repaired one
+        verdicts = []
+        for fix, label in (("FALSE", "as coded (first block of a segment checked against the canonical block)"),
+                           ("TRUE", "repaired (first block checked against its real parent)")):
+            cfgt = open(os.path.join(vlib.SPEC, "VersionChain_Trace.cfg")).read().replace("FixParent = FALSE", "FixParent = " + fix)
+            conf = ctx.tlc("VersionChain_Trace", cfgt, name="Conf_chain_" + fix.lower(), workers=1, timeout=1500, count=False,
+                           xss="256m", files={"trace.ndjson": trace, "known_c12.json": json.dumps(known_for_model(ctx))})
+            accd = [v for v in conf.printed if isinstance(v, dict) and v.get("kind") == "ACCEPTED"]
+            rej = [v for v in conf.printed if isinstance(v, dict) and v.get("kind") == "REJECTED"]
+            if accd:
+                ctx.cov["chain_conformance"] = "accepted %d events; the code follows the design %s" % (accd[0]["events"], label)
+                break
+            verdicts.append(json.dumps(rej[0])[:400] if rej else (conf.error or conf.violated or "no verdict"))
+        else:
+            ctx.cov["drift_events"] += 1
+            ctx.cov["chain_conformance"] = "rejected by both designs: %s" % " | ".join(verdicts)
+            print("DRIFT: property=C12 the real BlockChain left the design layer of VersionChain.tla: %s" % ctx.cov["chain_conformance"],
+                  flush=True)
+    return trace, result
+
+
+def chain_selftest(ctx, trace):
+    """a falsified answer must be reported by the monitor and rejected by the conformance spec at that line"""
+    ev = vlib.read_ndjson(trace)
+    bad = None
+    for i, e in enumerate(ev):
+        if e.get("ev") == "query" and e["obs"]["hn"] >= 4 and e["ans"][4] != 0:
+            e["ans"][4] = 11 - e["ans"][4]      # 5 <-> 6
+            bad = i + 1
+            break
+    if bad is None:
+        raise vlib.Undecided("chain self-test: no suitable query event")
+    p = ctx.path("chain_trace_corrupt.ndjson")
+    start = max(j for j in range(bad) if ev[j].get("ev") == "reset")
+    vlib.write_ndjson(p, ev[start:bad])
+    line = bad - start
+    conf = ctx.tlc("VersionChain_Trace", "VersionChain_Trace.cfg", name="Conf_chain_selftest", workers=1, timeout=600, count=False,
+                   xss="256m", files={"trace.ndjson": p, "known_c12.json": json.dumps(known_for_model(ctx))})
+    rej = [v for v in conf.printed if isinstance(v, dict) and v.get("kind") == "REJECTED"]
+    mon = ctx.tlc("VersionChain_Mon", "VersionChain_Mon.cfg", name="Mon_chain_selftest", files={"trace.ndjson": p, "known.json": "[]"},
+                  workers=1, timeout=600, count=False, xss="256m", check_deadlock=False)
+    res = [v for v in mon.printed if isinstance(v, dict) and v.get("kind") == "RESULT"]
+    seen = bool(res) and any(v[0] == "ActiveVersionIsCanonical" and v[2] == line for v in res[0]["viol"])
+    ok = bool(rej) and rej[0]["line"] == line and seen
+    ctx.cov["chain_binding_selftest"] = "falsified answer at line %d: conformance rejected at %s, monitor reported: %s" % (
+        line, rej[0]["line"] if rej else None, seen)
+    if not ok:
+        raise vlib.Undecided("chain-level trace-checker self-test failed")
+
+
+def chain_level(ctx):
+    behs, violated = chain_generate(ctx)
+    ctx.sample(behs[0])
+    trace, result = chain_judge(ctx, behs)
+    fired = result.get("fired") or {}
+    zero = [k for k, v in fired.items() if not v]
+    if zero:
+        raise vlib.Undecided("chain level: vacuous monitor antecedents: %s" % zero)
+    if not ctx.quick:
+        chain_selftest(ctx, trace)
+    return violated
+
+
 def run(ctx):
     ctx.cov["rule"] = ("behaviours = stored witnesses + design counterexamples + one witness chain per distinct reachable header "
                        "state of the design model (every parameter set of the tier) + one random walk per parameter set; for each "
@@ -212,9 +370,14 @@ def run(ctx):
                         "nor rejection of a builder's header",
                         "vote rounds in {2,3}, threshold in {1,2,3}, min wait in {0,1,2}, max wait in {min..3}; header fields in 0..8 "
                         "for exhaustive exploration, unbounded rounds in the walks"]
+    ctx.assumptions += ["chain level: solo engine, versions {5,6} with vote rounds 2 / threshold 2 / min wait 1 / max wait 2, "
+                        "protocolRoundBack = 8 is a constant of the code (not scaled): rounds 8..15 look back at heights 0..7; "
+                        "reorganisations only onto chains that are not shorter (as production does)"]
+    chain_violated = chain_level(ctx)
     psets = choose_param_sets(ctx)
     ctx.cov["parameter_sets"] = len(psets)
     gen, violated = design(ctx, psets)
+    violated = violated or chain_violated
     w = witnesses()
     walks = []
     n = 1200 if ctx.quick else 1500
@@ -237,4 +400,9 @@ def run(ctx):
 
 def replay(ctx, path):
     data = json.load(open(path))
-    judge(ctx, data["behaviours"], conformance=False)
+    chain = [b for b in data["behaviours"] if isinstance(b, list)]
+    pairs = [b for b in data["behaviours"] if isinstance(b, dict)]
+    if chain:
+        chain_judge(ctx, chain, conformance=False)
+    if pairs:
+        judge(ctx, pairs, conformance=False)
